@@ -687,14 +687,19 @@ META = {
               'posixpath at start-up) + exists/listdir on the in-memory directory tree engine.sstr.SymFS (POSIX semantics, no symlinks; validated against a real '
               'temporary directory at start-up)',
               'aioslsk.naming.int -> engine.sstr.sym_int (decimal digit strings -> z3 Int)',
+              'unicodedata (module global, names imported from it, and sys.modules for function-local imports) -> engine.sstr.UnicodedataShim: normalize / '
+              'is_normalized on symbolic strings (one-to-one replacements are applied as a symbolic character map, characters that expand / combine / reorder are '
+              'concretised by forking, concrete runs go through CPython), per-character look-ups fork over their distinct results in the alphabet; tables are CPython\'s own; '
+              'validated against unicodedata.normalize at start-up (17 476 strings x forms) and on symbolic paths (harness selfcheck_unicode)',
               'aioslsk.shares.manager.asyncos, aioslsk.transfer.manager.asyncos / aiofiles -> the same directory tree behind one suspension point per call '
-              '(replay of the concurrent harness: same front end over the real directory)',
+              '(replays: the same front end over the real temporary directory, which refuses to create or remove anything outside that directory)',
               'f-strings / str(): symbolic characters travel through CPython string formatting as private-use placeholder code points and are mapped back by the shims; '
               'a symbolic integer formatted into a string is concretised by forking (sstr.numeric_formatting, a run-time replacement of symex.SInt.__format__/__str__)',
               'TransferManager built with object.__new__ and only _shares_manager; peer connection -> 3-method fake (set_connection_state, receive_file, disconnect); '
               'asyncio loop -> engine.vloop.VLoop'],
     'data_variables': ['every character of the remote path (5-bit index into Σ; Σ has both separators, ".", "@", ":", blank, brackets, regex/glob meta characters, '
-                       'ASCII and non-ASCII digits and letters)',
+                       'ASCII and non-ASCII digits and letters); in the jobs without directory content a 6-bit index into Σ-ext = Σ + U+FF0F U+FF3C U+2215 U+2024 U+FF0E '
+                       'U+FE52 (look-alikes of / \\ .), U+0301 with "e" (decomposed letter) and U+FB01 (ligature)',
                        'every character of every pre-existing entry of the download directory and of its sub-directory (free; only " (", ")" of numbered-copy templates are literal)',
                        'the number inside a numbered copy (digits symbolic; concretised by forking where the code hashes it)'],
     'discriminants': ['chain of strategies (default chain, the 6 orders of the three shipped strategies, D / DK / KD)', 'length of the remote path / shape (which positions may be separators)',
